@@ -17,6 +17,8 @@ def gen_streams(r, n):
             vals = [G.nested(r, r.choice([5, 20, 63]), G.rand_value(r, 0))]
         else:
             vals = [G.rand_value(r, r.choice([0, 1, 2, 3])) for _ in range(r.choice([1, 2, 3, 5, 8, 13, 40]) if k > 7 else r.randrange(1, 6))]
+        if r.random() < 0.3:
+            vals = G.with_twins(r, vals)
         data, _ = G.spell_stream(r, vals)
         out.append(data)
     return out
